@@ -12,7 +12,7 @@
 import ChalkModel.Lemmas.FixedPointSem
 
 namespace Chalk.FixedPoint.Mix
-open Chalk.FixedPoint.Cyc (JE JA InGfp InLfp MinLe InCache InGraph Def Undef flagAt StackExt stackGoals)
+open Chalk.FixedPoint.Cyc (JE JA InGfp InLfp MinLe InCache InGraph Def Undef flagAt StackExt stackGoals QuietSt)
 
 /-- the optimistic value of goal `k` (`initial_value`) -/
 def topOf (inst : Instance) (k : Nat) : V := initialValue (inst.coind k)
@@ -166,7 +166,7 @@ variable (inst : Instance) (P : Nat → Prop)
     state knows is held at its current value (sub-goals of the other polarity count with their
     true answer) -/
 def InG (s : St) (k : Nat) : Prop :=
-  ∃ S : Nat → Prop, (∀ x, S x → Def s x (topOf inst x) ∨
+  ∃ S : Nat → Prop, (∀ x, S x → (Def s x (topOf inst x) ∨ Def s x .ambig) ∨
     (Undef s x ∧ JV inst (topOf inst x) (Opt inst P S (topOf inst x)) x)) ∧ S k
 
 /-- the answer `v` for `j` is justified in `s` by nodes at or above `lb`: it is true outright, or it
@@ -182,8 +182,10 @@ def Below (lvl : Nat → Nat) (s : St) (g : Nat) : Prop :=
     lvl g ≤ lvl n.goal ∧ (lvl g = lvl n.goal → inst.coind g = inst.coind n.goal)
 
 /-- the state invariant -/
-structure Inv (dom : List Nat) (lvl : Nat → Nat) (s : St) : Prop where
-  quiet : s.oracle = [] ∧ s.oracleDefault = true ∧ s.interrupted = false
+structure Inv (dom : List Nat) (lvl : Nat → Nat) (fx : Bool) (s : St) : Prop where
+  /-- the repairs F10 and F16 are assumed (`fx`), or solving is not interrupted at all -/
+  fixes : fx = true ∨ (QuietSt s ∧ s.interrupted = false)
+  amb : ∀ (i : Nat) (n : Node), s.graph[i]? = some n → n.solution = .ambig → s.interrupted = true
   cacheOK : ∀ k v, InCache s k v → Holds P v k
   stackNode : ∀ (d : Nat) (e : StackEntry), s.stack[d]? = some e → ∃ (i : Nat) (n : Node),
     s.graph[i]? = some n ∧ n.stackDepth = some d ∧ e.coinductiveGoal = inst.coind n.goal
@@ -194,7 +196,7 @@ structure Inv (dom : List Nat) (lvl : Nat → Nat) (s : St) : Prop where
   disj : ∀ (i : Nat) (n : Node), s.graph[i]? = some n → ∀ v, ¬ InCache s n.goal v
   inDom : ∀ (i : Nat) (n : Node), s.graph[i]? = some n → n.goal ∈ dom
   val : ∀ (i : Nat) (n : Node), s.graph[i]? = some n →
-    n.solution = topOf inst n.goal ∨ n.solution = botOf inst n.goal
+    n.solution = topOf inst n.goal ∨ n.solution = botOf inst n.goal ∨ n.solution = .ambig
   approx : ∀ (i : Nat) (n : Node), s.graph[i]? = some n → n.solution = botOf inst n.goal →
     Holds P n.solution n.goal
   stk : ∀ (i : Nat) (n : Node) (d : Nat), s.graph[i]? = some n → n.stackDepth = some d →
@@ -214,10 +216,13 @@ structure Step (s s' : St) (lb : Min) : Prop where
   ext : ∀ k v, Def s k v → Def s' k v
   low : ∀ k, Undef s k → Def s' k (botOf inst k) → ¬ InG inst P s k
   cacheMode : s'.cache.isSome = s.cache.isSome
+  intr : s.interrupted = true → s'.interrupted = true
+  quiet : QuietSt s → QuietSt s' ∧ (s.interrupted = false → s'.interrupted = false)
 
 /-- what a sub-goal call reports about its answer -/
 def Fact (s0 s' : St) (m' : Min) (g : Nat) (v : V) : Prop :=
-  (v = topOf inst g ∧ Wit inst P s' m' v g) ∨ (v = botOf inst g ∧ Holds P v g ∧ ¬ InG inst P s0 g)
+  (v = topOf inst g ∧ Wit inst P s' m' v g) ∨ (v = botOf inst g ∧ Holds P v g ∧ ¬ InG inst P s0 g) ∨
+  (v = .ambig ∧ s'.interrupted = true)
 
 /-- the returned minimums, if lowered to an index below `B` (the part of the graph that is stable
     during the call), points at a node that is not above `L` in the stratification -/
